@@ -364,7 +364,7 @@ var smtFunRet = map[string]Sort{
 	"ktag": SInt, "pfx": SBool, "krange": SBool, "sfx": SBool, "klt": SBool,
 	"acc_str": SStr, "val_str": SStr, "acc_of": SBytes, "val_of": SBytes, "acc_ok": SBool, "val_ok": SBool,
 	"modaddr": SBytes, "blocked": SBool, "denom_ok": SBool, "ismod": SBool,
-	"numstr": SStr, "decstr": SStr, "urlunesc": SStr, "urlunesc_ok": SBool,
+	"spendable": SBool, "numstr": SStr, "decstr": SStr, "urlunesc": SStr, "urlunesc_ok": SBool,
 	"stk_exists": SBool, "stk_status": SInt, "stk_tokens": SInt, "stk_dshares": SDec, "stk_jailed": SBool,
 	"stk_hasdel": SBool, "stk_delshares": SDec, "stk_total_bonded": SInt,
 }
@@ -600,7 +600,8 @@ func (ev *Evaluator) call(e *Expr) Val {
 		if len(a) != len(pd.Params) {
 			ev.fail("pure %s expects %d arguments", e.Name, len(pd.Params))
 		}
-		sub := &Evaluator{E: E, M: ev.M, Names: map[string]Val{}, Bound: ev.Bound, Old: ev.Old, Loop: ev.Loop, Results: ev.Results}
+		// pure functions are closed terms over their parameters: outer quantifier variables must not shadow them
+		sub := &Evaluator{E: E, M: ev.M, Names: map[string]Val{}, Old: ev.Old, Loop: ev.Loop, Results: ev.Results, Frame: nil, LiveM: ev.LiveM}
 		for i, p := range pd.Params {
 			sub.Names[p] = a[i]
 		}
@@ -623,6 +624,8 @@ func (ev *Evaluator) call(e *Expr) Val {
 			E.declStaking()
 		}
 		switch e.Name {
+		case "spendable":
+			E.D.Fun("spendable", []Sort{SBytes}, SBool)
 		case "numstr":
 			E.D.Fun("numstr", []Sort{SInt}, SStr)
 		case "decstr":
